@@ -166,7 +166,8 @@ def build(sc):
     rng = random.Random(sc.model_seed * 7919 + 13)
     d, nlab = sc.d, sc.nlab
     names = NAME_SCHEMES[sc.names](d)
-    conv = (lambda q: q) if sc.numeric == "fraction" else float
+    # "np": every number the library receives is a NumPy scalar (np.float64 values, np.int64 counts), alpha = 1 the int 1
+    conv = (lambda q: q) if sc.numeric == "fraction" else np.float64 if sc.numeric == "np" else float
     W = [[F(rng.randrange(-4, 5)) for _ in range(d)] for _ in range(max(nlab, 1))]
     for row in W:
         if all(w == 0 for w in row):
@@ -278,11 +279,11 @@ def build(sc):
     if imputer is not None:
         kw["imputer"] = imputer
     if sc.alpha is not None:
-        kw["smoothing_alpha"] = conv(sc.alpha)
+        kw["smoothing_alpha"] = 1 if (sc.numeric == "np" and sc.alpha == 1) else conv(sc.alpha)
     if sc.pass_dynamic:
         kw["dynamic_setting"] = sc.dynamic
     if sc.n_inner != 1:
-        kw["n_inner_samples"] = sc.n_inner
+        kw["n_inner_samples"] = np.int64(sc.n_inner) if sc.numeric == "np" else sc.n_inner
     if sc.cls == "sage":
         if sc.bigger:
             kw["loss_bigger_is_better"] = True
@@ -487,7 +488,7 @@ def run_scenario(sc, tape_mode="log", script=None, keep_raw=False, provider=None
             self_in_bg = rows_before is not None and any(r is x for r in rows_before)
             kw = {}
             if n_over is not None and n_over != "manual":
-                kw["n_inner_samples"] = n_over
+                kw["n_inner_samples"] = np.int32(n_over) if sc.numeric == "np" else n_over
             if not upd:
                 kw["update_storage"] = False
             outcome, exc_name, ret = "ret", "", None
